@@ -34,6 +34,19 @@ def mixed(rng, n, heavy=True):
         elif k < 0.66:
             p = rng.choice(pts)
             out.append(("dec u %s" % E.hx(E.uncompressed(p if E.lex_largest(p[1]) else ((-p[0]) % E.P, (-p[1]) % E.P))), "decode-uncompressed"))
+        elif k < 0.70:
+            # verification of arbitrary well-formed (not honest) proofs over commitments given in PROJECTIVE
+            # representations: the decision is "false", what matters here is that nothing given is rewritten
+            nn = rng.randrange(1, 4)
+            cs = [E.tok(rng.choice(pts), l=rng.randrange(2, E.P), flip=bool(rng.randrange(2))) for _ in range(nn)]
+            if rng.random() < 0.5:
+                pb = b"".join(E.compress(rng.choice(pts)) for _ in range(17)) + rng.randrange(R).to_bytes(32, "little")
+                out.append((mpgen.mpv_line(b"wv", pb.hex(), cs, [rng.randrange(256) for _ in range(nn)],
+                                           ["%x" % rng.randrange(R) for _ in range(nn)]), "verify-multiproof"))
+            else:
+                pb = b"".join(E.compress(rng.choice(pts)) for _ in range(16)) + rng.randrange(R).to_bytes(32, "little")
+                out.append(("ipav %s %s %s %x %x" % (E.hx(b"wv"), pb.hex(), cs[0], rng.choice([0, 255, 256, rng.randrange(R)]),
+                                                    rng.randrange(R)), "verify-ipa"))
         elif k < 0.80:
             l, _ = gsgen.gen_script(rng, rng.randrange(1, 12))
             out.append((l, "group-script"))
